@@ -116,9 +116,9 @@ def gen_spec(rnd, depth=0):
                 else:
                     op["opnds"].append(["o", rnd.randrange(0, 2)])
             if rnd.random() < 0.3:
-                op["attrs"]["a"] = rnd.randrange(0, 2)
+                op["attrs"][rnd.choice(["a", "x"])] = rnd.randrange(0, 2)
             if rnd.random() < 0.3:
-                op["props"]["p"] = rnd.randrange(0, 2)
+                op["props"][rnd.choice(["p", "x"])] = rnd.randrange(0, 2)
             if rnd.random() < 0.25:
                 op["succ"] = [rnd.randrange(0, 2) for _ in range(rnd.randrange(1, 3))]
             if depth < 1 and rnd.random() < 0.2:
@@ -232,7 +232,7 @@ def _inside(o, top):
     return False
 
 
-MUTATIONS = ["result_type", "arg_type", "attr", "prop", "operand", "successor", "swap_ops", "swap_blocks", "drop_op", "add_result"]
+MUTATIONS = ["result_type", "arg_type", "attr", "prop", "attr_to_prop", "prop_to_attr", "shadowed_attr", "operand", "successor", "swap_ops", "swap_blocks", "drop_op", "add_result"]
 
 
 def mutate(spec, kind, rnd):
@@ -265,9 +265,29 @@ def mutate(spec, kind, rnd):
         j = rnd.randrange(len(op["res"]))
         op["res"][j] = "i64" if op["res"][j] == "i32" else "i32"
     elif kind == "attr":
-        op["attrs"]["a"] = 1 - op["attrs"].get("a", 5) if "a" in op["attrs"] else 0
+        k = rnd.choice(sorted(op["attrs"]) or ["a"])
+        op["attrs"][k] = 1 - op["attrs"][k] if k in op["attrs"] else 0
     elif kind == "prop":
-        op["props"]["p"] = 1 - op["props"].get("p", 5) if "p" in op["props"] else 0
+        k = rnd.choice(sorted(op["props"]) or ["p"])
+        op["props"][k] = 1 - op["props"][k] if k in op["props"] else 0
+    elif kind == "attr_to_prop":
+        if not op["attrs"]:
+            return None
+        k = rnd.choice(sorted(op["attrs"]))
+        if k in op["props"]:
+            return None
+        op["props"][k] = op["attrs"].pop(k)
+    elif kind == "prop_to_attr":
+        if not op["props"]:
+            return None
+        k = rnd.choice(sorted(op["props"]))
+        if k in op["attrs"]:
+            return None
+        op["attrs"][k] = op["props"].pop(k)
+    elif kind == "shadowed_attr":
+        # an attribute and a property with the same name: change only the attribute
+        op["props"]["x"] = op["props"].get("x", 0)
+        op["attrs"]["x"] = 1 - op["attrs"].get("x", 0)
     elif kind == "operand":
         if not op["opnds"]:
             return None
